@@ -161,6 +161,9 @@ fn opts_check(opts: &Opts) -> Result<()> {
     if opts.no_clobber && opts.force {
         return Err(XcpError::InvalidArguments("--force and --noclobber cannot be set at the same time.".to_string()).into());
     }
+    if opts.no_target_directory && opts.target_directory.is_some() {
+        return Err(XcpError::InvalidArguments("--no-target-directory and --target-directory cannot be set at the same time.".to_string()).into());
+    }
     Ok(())
 }
 
